@@ -90,6 +90,10 @@ def run(ctx):
     for s in [s for s in gen.scale_texts(ctx.rng)]:
         oracle(ctx, s)
     ctx.count('scale texts')
+    # statements around `:=` (the one grouping that absorbs more than its operands): fixed family + random sequences
+    for s in gen.assignment_texts(ctx.rng, ctx.n(600, 12000)):
+        oracle(ctx, s)
+    ctx.count('assignment texts')
     ins = [c['input'] for c in streams.corpus('C02')] + inputs(ctx, ctx.n(2500, 50000), ctx.n(500, 10000))
     nb = 0
     for s in boundary_sweep(3):
